@@ -1260,6 +1260,7 @@ Qed.
 Section MincThm.
 Context {F R : Type}.
 Variable scale : F -> list Z -> R.
+Variable noscale : list Z -> R.
 Variable dF : F.
 Variable dR : R.
 
@@ -1279,7 +1280,7 @@ Qed.
 
 Theorem minc_getitem_spec shape nscales elems facs ix c :
   minc_hyps shape nscales elems facs ix c ->
-  minc_getitem scale dF shape nscales elems facs ix
+  minc_getitem scale noscale dF false shape nscales elems facs ix
   = Ok (np_index dR OrdC shape c (minc_full scale dF shape nscales elems facs)).
 Proof.
   intros (Hc & Hv & Hl & Hns & Hfl). unfold minc_getitem. rewrite Hc. cbn [bind].
@@ -1390,6 +1391,17 @@ Proof.
         rewrite Z.mul_comm, Z.div_add by lia. rewrite Z.div_small by lia. lia.
       * rewrite map_length. pose proof (zseq_length (prod shape) ltac:(lia)). lia.
       * unfold zlen in Hl. lia.
+Qed.
+
+(* float-typed image: the data as read, unscaled, for every valid index *)
+Theorem minc_getitem_float_spec shape nscales elems (facs : list F) ix c :
+  canonical_slicers true ix shape = Ok c -> ix_valid shape c -> zlen elems = prod shape ->
+  minc_getitem scale noscale dF true shape nscales elems facs ix
+  = Ok (np_index dR OrdC shape c (map noscale elems)).
+Proof.
+  intros Hc Hv Hl. unfold minc_getitem. rewrite Hc. cbn [bind].
+  rewrite (np_index_map noscale [] dR) by assumption.
+  now destruct (np_index [] OrdC shape c elems).
 Qed.
 End MincThm.
 
